@@ -43,6 +43,9 @@ func Main(id string, fams []Family) {
 				en.Only = replayName(e.Replay)
 				e.Stats["replay_scenario"] = en.Only
 			}
+			if e.Thorough() {
+				e.Case("TIER", "thorough") // the driver then also compares the reduced acceptor with the plain one
+			}
 			en.Calibrate()
 			for _, f := range fams {
 				if f.Name == name {
@@ -50,6 +53,10 @@ func Main(id string, fams []Family) {
 				}
 			}
 			en.WriteStats()
+			if d := en.Degraded(); len(d) > 0 {
+				e.Stats["tie_degraded"] = d
+				return fmt.Errorf("tie-degraded (family %s): %s", name, strings.Join(d, "; "))
+			}
 			return nil
 		})
 		return
@@ -87,10 +94,14 @@ func Main(id string, fams []Family) {
 		cmd.Stderr = io.MultiWriter(&tailWriter{buf: &errbuf, max: 1 << 16}, os.Stderr)
 		rc := 0
 		if err := cmd.Run(); err != nil {
-			rc = 1
-			if ee, ok := err.(*exec.ExitError); ok {
-				rc = ee.ExitCode()
+			ee, ok := err.(*exec.ExitError)
+			if !ok {
+				// the child could not be run at all (exec failure, I/O error): infrastructure, not a crash of the code under test
+				fmt.Fprintf(os.Stderr, "harness error: cannot run family %s: %v\n", f.Name, err)
+				exit = 3
+				continue
 			}
+			rc = ee.ExitCode()
 		}
 		// the child's cases
 		if b, err := os.ReadFile(filepath.Join(cdir, "cases.txt")); err == nil {
